@@ -768,6 +768,25 @@ func (c *EvalCtx) evalCall(e *CallE) TV {
 				return TV{V: fv.Bind[i], T: v.Type()}
 			}
 		}
+		// the captured variable was renamed: if the literal captures exactly one variable besides the
+		// receiver, that is the one meant (reported as a note)
+		var others []int
+		for i, v := range fv.Fn.FreeVars {
+			if v.Name() != "_this" && i < len(fv.Bind) {
+				others = append(others, i)
+			}
+		}
+		if len(others) == 1 {
+			i := others[0]
+			v := fv.Fn.FreeVars[i]
+			c.eng.note("closureVar(%s, %q): the literal captures no variable of that name; read as the one variable it captures besides the receiver, %q (renamed?)", fv.Fn.Name(), sl.Val, v.Name())
+			if pv, isPtr := fv.Bind[i].(*PtrV); isPtr && pv.Kind == PCell {
+				if pt, isP := v.Type().Underlying().(*types.Pointer); isP {
+					return TV{V: c.cur.Cells[pv.Cell], T: pt.Elem()}
+				}
+			}
+			return TV{V: fv.Bind[i], T: v.Type()}
+		}
 		evalFail("closureVar: %s has no free variable %s", fv.Fn.Name(), sl.Val)
 		return TV{}
 	case "val":
